@@ -147,6 +147,12 @@ Lemma Good_set_err s : Good s (set_err s).
 Proof. split; [auto|intros c _ _; auto]. Qed.
 Lemma Good_set_inited s b : Good s (set_inited s b).
 Proof. split; [auto|intros c _ _; auto]. Qed.
+Lemma Good_set_exn s : Good s (set_exn s).
+Proof. split; [auto|intros c _ _; auto]. Qed.
+Lemma Good_clear_exn s : Good s (clear_exn s).
+Proof. split; [auto|intros c _ _; auto]. Qed.
+Lemma Good_set_active s b v : Good s (set_active s b v).
+Proof. split; [auto|intros c _ _; auto]. Qed.
 Lemma Good_handler s b : Good s (add_log s (CHandler b)).
 Proof.
   split.
@@ -213,6 +219,10 @@ Proof.
 Qed.
 Lemma FrameX_set_err x s : FrameX x s (set_err s).
 Proof. intros c _ _; auto. Qed.
+Lemma FrameX_set_exn x s : FrameX x s (set_exn s).
+Proof. intros c _ _; auto. Qed.
+Lemma FrameX_clear_exn x s : FrameX x s (clear_exn s).
+Proof. intros c _ _; auto. Qed.
 
 Ltac ftr := eapply FrameX_trans.
 
@@ -220,11 +230,11 @@ Ltac ftr := eapply FrameX_trans.
 Definition regular_half f T b s1 : istate :=
   let s2 := add_log (set_steps s1 b (-2)) (CRegular b) in
   let s3 := match is_regular (spec_of T b) with
-            | GNoEffect => s2 | GSets => set_output f T s2 b | GRaises => set_err s2 end in
-  if ierr s3 then s3 else
+            | GNoEffect => s2 | GSets => set_output f T s2 b | GRaises => set_exn s2 end in
+  if halt s3 then s3 else
   let s4 := if negb (inited s3 b) && is_initdef (spec_of T b)
             then set_output f T (add_log s3 (CFromValue b)) b else s3 in
-  if ierr s4 then s4 else set_steps s4 b 2.
+  if halt s4 then s4 else set_steps s4 b 2.
 
 Lemma regular_frame f T b s1 (IH : forall s, Good s (set_output f T s b)) :
   FrameX (Some b) s1 (regular_half f T b s1).
@@ -236,16 +246,16 @@ Proof.
   assert (F2 : FrameX (Some b) s1 s2).
   { ftr; [apply FrameX_set_steps|eapply FrameX_add_log; exact TG_]. }
   set (s3 := match is_regular (spec_of T b) with
-            | GNoEffect => s2 | GSets => set_output f T s2 b | GRaises => set_err s2 end).
+            | GNoEffect => s2 | GSets => set_output f T s2 b | GRaises => set_exn s2 end).
   assert (F3 : FrameX (Some b) s1 s3).
   { subst s3. destruct (is_regular _); [exact F2| |].
     - ftr; [exact F2|apply FrameX_weaken, IH].
-    - ftr; [exact F2|apply FrameX_set_err]. }
-  destruct (ierr s3) eqn:E3; [exact F3|].
+    - ftr; [exact F2|apply FrameX_set_exn]. }
+  destruct (halt s3) eqn:E3; [exact F3|].
   destruct (negb (inited s3 b) && is_initdef (spec_of T b)); [|rewrite E3].
   - assert (F5 : FrameX (Some b) s1 (set_output f T (add_log s3 (CFromValue b)) b)).
     { ftr; [exact F3|]. ftr; [eapply FrameX_add_log; exact TF_|apply FrameX_weaken, IH]. }
-    destruct (ierr (set_output f T (add_log s3 (CFromValue b)) b)); [exact F5|]. ftr; [exact F5|apply FrameX_set_steps].
+    destruct (halt (set_output f T (add_log s3 (CFromValue b)) b)); [exact F5|]. ftr; [exact F5|apply FrameX_set_steps].
   - ftr; [exact F3|apply FrameX_set_steps].
 Qed.
 
@@ -260,19 +270,19 @@ Proof.
   { eapply Loc_steps_log; [exact HL|exact TG_|].
     right; right. split; [now left|]. destruct Hp as [->| ->]; simpl; auto. }
   set (s3 := match is_regular (spec_of T b) with
-            | GNoEffect => s2 | GSets => set_output f T s2 b | GRaises => set_err s2 end).
+            | GNoEffect => s2 | GSets => set_output f T s2 b | GRaises => set_exn s2 end).
   assert (L3 : Loc b (-2) (p ++ [TG]) s3).
   { subst s3. destruct (is_regular _); [exact L2| |].
     - eapply Loc_good; [exact L2|lia|apply IH].
-    - eapply Loc_good; [exact L2|lia|apply Good_set_err]. }
-  destruct (ierr s3) eqn:E3; [apply L3|].
+    - eapply Loc_good; [exact L2|lia|apply Good_set_exn]. }
+  destruct (halt s3) eqn:E3; [apply L3|].
   destruct (negb (inited s3 b) && is_initdef (spec_of T b)); [|rewrite E3].
   - assert (L4 : Loc b (-2) ((p ++ [TG]) ++ [TF]) (add_log s3 (CFromValue b))).
     { apply Loc_add_log; [exact L3|exact TF_|]. right; right. split; [now left|].
       destruct Hp as [->| ->]; simpl; auto. }
     assert (L5 : Loc b (-2) ((p ++ [TG]) ++ [TF]) (set_output f T (add_log s3 (CFromValue b)) b))
       by (eapply Loc_good; [exact L4|lia|apply IH]).
-    destruct (ierr (set_output f T (add_log s3 (CFromValue b)) b)); [apply L5|].
+    destruct (halt (set_output f T (add_log s3 (CFromValue b)) b)); [apply L5|].
     eapply Loc_set_steps; [exact L5|]. right; right. split; [now right|].
     destruct Hp as [->| ->]; simpl; auto.
   - eapply Loc_set_steps; [exact L3|]. right; right. split; [now right|].
@@ -300,7 +310,7 @@ Definition first_half f T b s : istate :=
         | RAbsent => s'
         | RRaises => add_log s' (CRestore b)
         | RNoEffect => add_log s' (CRestore b)
-        | RSets => set_output f T (add_log s' (CRestore b)) b
+        | RSets => clear_exn (set_output f T (add_log s' (CRestore b)) b)
         end
       else s' in
     if ierr s'' then s'' else set_steps s'' b 1
@@ -308,8 +318,8 @@ Definition first_half f T b s : istate :=
 
 Lemma init_sblock_eq f T s b full :
   init_sblock (S f) T s b full =
-  if ierr s then s else
-  if ierr (first_half f T b s) then first_half f T b s else
+  if halt s then s else
+  if halt (first_half f T b s) then first_half f T b s else
   if (steps s b =? 1) || ((steps s b =? 0) && full) then regular_half f T b (first_half f T b s)
   else first_half f T b s.
 Proof. reflexivity. Qed.
@@ -327,15 +337,15 @@ Proof.
   assert (F'' : FrameX (Some b) s s'').
   { subst s''. destruct (is_persistent _); [|exact Fs'].
     destruct (is_restore _); try assumption.
-    ftr; [exact Fa|apply FrameX_weaken, IH]. }
+    ftr; [exact Fa|]. ftr; [apply FrameX_weaken, IH|apply FrameX_clear_exn]. }
   destruct (ierr s''); [exact F''|]. ftr; [exact F''|apply FrameX_set_steps].
 Qed.
 
-(* after the first half of a block with no completed step: either an error, or step 1 is complete *)
+(* after the first half of a block with no completed step: either the run is over, or step 1 is complete *)
 Lemma first_P f T b s (IH : forall s, Good s (set_output f T s b)) :
   P s -> steps s b = 0 ->
   P (first_half f T b s) /\
-  (ierr (first_half f T b s) = false ->
+  (halt (first_half f T b s) = false ->
    exists p, (p = [] \/ p = [TR]) /\ Loc b 1 p (first_half f T b s)).
 Proof.
   intros HP E0. unfold first_half. rewrite E0. cbn [Z.eqb]. cbv zeta.
@@ -352,12 +362,13 @@ Proof.
   assert (L'' : exists p, (p = [] \/ p = [TR]) /\ Loc b (-1) p s'').
   { subst s''. destruct (is_persistent _); [|exists []; auto].
     destruct (is_restore _); [exists []; auto|exists [TR]; auto|exists [TR]; auto|].
-    exists [TR]. split; [auto|]. eapply Loc_good; [exact La|lia|apply IH]. }
+    exists [TR]. split; [auto|]. eapply Loc_good; [exact La|lia|].
+    eapply Good_trans; [apply IH|apply Good_clear_exn]. }
   destruct L'' as (p & Hp & L).
   assert (L1 : Loc b 1 p (set_steps s'' b 1))
     by (eapply Loc_set_steps; [exact L|right; left; split; auto]).
   destruct (ierr s'') eqn:E''.
-  - split; [apply L|]. intros H. rewrite H in E''. discriminate.
+  - split; [apply L|]. unfold halt. rewrite E''. discriminate.
   - split; [apply L1|]. intros _. exists p. auto.
 Qed.
 
@@ -371,22 +382,33 @@ Proof.
     assert (IHe : forall s b, Good s (event_put f T s b)) by (intros; apply IH).
     assert (IHi : forall s b full, Good s (init_sblock f T s b full)) by (intros; apply IH).
     split; [|split].
-    + simpl. destruct (ierr s); [apply Good_refl|]. destruct (inited s b); [apply Good_refl|].
+    + simpl. destruct (halt s); [apply Good_refl|]. destruct (inited s b); [apply Good_refl|].
       eapply Good_trans; [apply Good_set_inited|]. apply fold_good. intros; apply IHe.
-    + simpl. destruct (ierr s); [apply Good_refl|].
-      set (s1 := if (0 <=? steps s b) && (steps s b <? 2) then init_sblock f T s b true else s).
-      assert (G1 : Good s s1) by (subst s1; destruct (_ && _); [apply IHi|apply Good_refl]).
-      destruct (ierr s1); [exact G1|].
+    + cbn [event_put]. destruct (halt s); [apply Good_refl|].
+      destruct (active s b); [apply Good_set_exn|]. cbv zeta.
+      set (s0 := set_active s b true).
+      assert (G0 : Good s s0) by apply Good_set_active.
+      set (s1 := if (0 <=? steps s0 b) && (steps s0 b <? 2) then _ else s0).
+      assert (G1 : Good s s1).
+      { subst s1. destruct ((0 <=? steps s0 b) && (steps s0 b <? 2)); [|exact G0].
+        eapply Good_trans; [exact G0|]. eapply Good_trans; [apply Good_set_active|].
+        eapply Good_trans; [apply IHi|].
+        destruct (iexn _); [apply Good_set_err|apply Good_set_active]. }
+      destruct (halt s1); [eapply Good_trans; [exact G1|apply Good_set_active]|].
       eapply Good_trans; [exact G1|]. eapply Good_trans; [apply Good_handler|].
-      destruct (is_handler_sets _); [apply IHo|apply Good_refl].
-    + intros full. rewrite init_sblock_eq. destruct (ierr s) eqn:Ee; [apply Good_refl|].
+      set (s3 := if is_handler_sets (spec_of T b) then _ else _).
+      assert (G3 : Good (add_log s1 (CHandler b)) s3)
+        by (subst s3; destruct (is_handler_sets _); [apply IHo|apply Good_refl]).
+      eapply Good_trans; [exact G3|].
+      destruct (iexn s3); [eapply Good_trans; [apply Good_set_err|apply Good_set_active]|apply Good_set_active].
+    + intros full. rewrite init_sblock_eq. destruct (halt s) eqn:Ee; [apply Good_refl|].
       pose proof (first_frame f T b s (fun s0 => IHo s0 b)) as F1.
       pose proof (regular_frame f T b (first_half f T b s) (fun s0 => IHo s0 b)) as F2.
       destruct (steps s b =? 0) eqn:E0.
       * apply Z.eqb_eq in E0.
         assert (Hn : 0 <= steps s b) by lia.
         replace (steps s b =? 1) with false by (rewrite E0; reflexivity). cbn [orb andb].
-        destruct (ierr (first_half f T b s)) eqn:E1.
+        destruct (halt (first_half f T b s)) eqn:E1.
         { split; [intros HP; apply (first_P f T b s (fun s0 => IHo s0 b) HP E0)|].
           eapply FrameX_to_None; eassumption. }
         destruct full.
@@ -416,8 +438,12 @@ Proof. intros b. left. auto. Qed.
 
 Lemma sync_pass_P T s : P s -> P (sync_pass T s).
 Proof.
-  unfold sync_pass. apply (fold_good (fun acc b => init_sblock (fuel_of T) T acc b false)).
-  intros s0 a. apply init_good.
+  unfold sync_pass.
+  apply (fold_good (fun acc b => let r := init_sblock (fuel_of T) T acc b false in
+                                 if iexn r then set_err r else r)).
+  intros s0 a. cbv zeta.
+  pose proof (proj2 (proj2 (init_good (fuel_of T) T s0 a)) false) as G.
+  destruct (iexn _); [eapply Good_trans; [exact G|apply Good_set_err]|exact G].
 Qed.
 
 Lemma proj_async b l (g : istate -> nat * Z * ascript -> istate) : forall s,
@@ -433,9 +459,10 @@ Proof.
   intros HP. unfold async_phase.
   destruct (run_tasks (sort_tasks (async_started T s)) 0 []) as [tend fin]. simpl.
   apply (fold_good (fun acc f => match snd f with
-                                 | ADone _ | APoll _ => set_output (fuel_of T) T acc (snd (fst f))
+                                 | ADone _ | APoll _ => clear_exn (set_output (fuel_of T) T acc (snd (fst f)))
                                  | _ => acc end)).
-  - intros s0 a. destruct (snd a); try apply Good_refl; apply init_good.
+  - intros s0 a. destruct (snd a); try apply Good_refl;
+      (eapply Good_trans; [exact (proj1 (init_good (fuel_of T) T s0 (snd (fst a))))|apply Good_clear_exn]).
   - intros b.
     destruct (proj_async b (async_started T s)
                 (fun acc t => add_log acc (CAsync (fst (fst t)))) s) as [A B].
@@ -467,43 +494,38 @@ Proof.
 Qed.
 
 (* an event that arrives before the block finished its synchronous steps makes those steps run
-   first: in event_put the handler is entered either with an error pending or with all steps done *)
+   first: in event_put the handler is entered either with the run over or with all steps done *)
 Lemma regular_half_completes f T b s1 :
-  ierr (regular_half f T b s1) = false -> steps (regular_half f T b s1) b = 2.
+  halt (regular_half f T b s1) = false -> steps (regular_half f T b s1) b = 2.
 Proof.
   unfold regular_half. cbv zeta.
   set (s3 := match is_regular (spec_of T b) with GNoEffect => _ | GSets => _ | GRaises => _ end).
-  destruct (ierr s3) eqn:E3; [congruence|].
+  destruct (halt s3) eqn:E3; [congruence|].
   set (s4 := if negb (inited s3 b) && is_initdef (spec_of T b) then _ else s3).
-  destruct (ierr s4) eqn:E4; [congruence|].
+  destruct (halt s4) eqn:E4; [congruence|].
   intros _. simpl. apply fupd_same.
 Qed.
 
 Theorem full_init_completes f T s b :
   steps s b = 0 \/ steps s b = 1 ->
-  ierr (init_sblock f T s b true) = false -> steps (init_sblock f T s b true) b = 2.
+  halt (init_sblock f T s b true) = false -> steps (init_sblock f T s b true) b = 2.
 Proof.
   intros Hs. destruct f as [|f]; [simpl; discriminate|].
-  rewrite init_sblock_eq. destruct (ierr s) eqn:Ee; [congruence|].
-  destruct (ierr (first_half f T b s)) eqn:E1; [congruence|].
+  rewrite init_sblock_eq. destruct (halt s) eqn:Ee; [congruence|].
+  destruct (halt (first_half f T b s)) eqn:E1; [congruence|].
   assert (C : (steps s b =? 1) || ((steps s b =? 0) && true) = true)
     by (destruct Hs as [-> | ->]; reflexivity).
   rewrite C. apply regular_half_completes.
 Qed.
 
+(* the handler of a pending event is entered only after the block's synchronous steps have been
+   completed: r is the state after the early initialisation *)
 Theorem event_runs_sync_steps_first f T s b :
-  ierr s = false -> 0 <= steps s b < 2 ->
-  let s1 := init_sblock f T s b true in
-  event_put (S f) T s b = (if ierr s1 then s1 else
-                            let s2 := add_log s1 (CHandler b) in
-                            if is_handler_sets (spec_of T b) then set_output f T s2 b else s2)
-  /\ (ierr s1 = false -> steps s1 b = 2).
+  halt s = false -> active s b = false -> 0 <= steps s b < 2 ->
+  let r := init_sblock f T (set_active (set_active s b true) b false) b true in
+  halt r = false -> steps r b = 2.
 Proof.
-  intros He Hs. cbv zeta. split.
-  - cbn [event_put]. rewrite He.
-    replace ((0 <=? steps s b) && (steps s b <? 2)) with true; [reflexivity|].
-    symmetry. apply andb_true_iff. split; [apply Z.leb_le|apply Z.ltb_lt]; lia.
-  - apply full_init_completes. lia.
+  intros He Ha Hs r Hr. subst r. apply full_init_completes; [|exact Hr]. simpl. lia.
 Qed.
 
 (* async tasks: at most one per block *)
